@@ -190,6 +190,15 @@ Ref(a) ==
     [] OTHER ->
       LET r == Ref(a.in) IN
       IF r.refuse # "none" THEN r
+      \* `tail` is a structural refusal waiting at the END of the input (items()
+      \* of key-less data, unbatch of a non-batch).  A consumer that walks its
+      \* input by index may or may not ever reach it (that depends on lengths
+      \* the reference does not track), so only programs that deliver the tail
+      \* through plain per-example stages are judged.
+      ELSE IF r.tail # "none" /\ a.op \in {"batch", "unbatch", "items", "cache", "catch", "copy",
+                                          "prefetch", "tile", "sort", "group", "split", "shard",
+                                          "shuffle", "cycle"}
+      THEN RefRefuse("undef")
       ELSE
       CASE a.op \in {"map", "pmap"} ->     \* pmap: map(fn, num_workers=w, buffer_size=bs)
              RefRec([j \in 1..Len(r.el) |->
